@@ -56,11 +56,12 @@ type prattTables struct {
 	nuds     map[string][]types.Object
 	funcDecl map[types.Object]*ast.FuncDecl
 	bpNames  map[string]bool // parser fields/methods that yield the binding power of a token type
+	ssaProg  *ssa.Program
 }
 
 func runPRATT(c *Ctx, r *Result, rule string) {
 	pkg := c.W.Lib["jparse"]
-	pt := &prattTables{pkg: pkg, tokName: map[string]string{}, lexTok: map[string]string{}, tokLex: map[string]string{}, rowOf: map[string]int{}, funcDecl: map[types.Object]*ast.FuncDecl{}, bpNames: map[string]bool{}}
+	pt := &prattTables{pkg: pkg, tokName: map[string]string{}, lexTok: map[string]string{}, tokLex: map[string]string{}, rowOf: map[string]int{}, funcDecl: map[types.Object]*ast.FuncDecl{}, bpNames: map[string]bool{}, ssaProg: c.W.Prog}
 	for nt, e := range enumTypes(pkg) {
 		if nt.Obj().Name() == "tokenType" {
 			for _, k := range e.Consts {
@@ -822,6 +823,31 @@ func (pt *prattTables) checkOperatorConstants(c *Ctx, r *Result, rule string) {
 			}
 			return false
 		})
+		// the same table from the compiled form of the function and of the helpers it calls: a
+		// helper that returns the constant, or an if chain, gives the tests a switch would
+		if sf := c.W.Fn("jparse." + fnName); sf != nil {
+			fns := []*ssa.Function{sf}
+			for _, ci := range callsIn(sf) {
+				if callee := ci.Common().StaticCallee(); callee != nil && fnPkg(callee) == pt.pkg.Types && len(callee.Blocks) > 0 && callee.Signature.Recv() == nil {
+					fns = append(fns, callee)
+				}
+			}
+			for _, g := range fns {
+				for _, cse := range constCaseMap(g) {
+					tv := cse.Lit.Value.ExactString()
+					if lt, ok := cse.Lit.Type().(*types.Named); !ok || lt.Obj().Name() != "tokenType" || tokOp[tv] != nil {
+						continue
+					}
+					for _, k := range cse.Sel {
+						if nt, ok := k.Type().(*types.Named); ok && nt.Obj().Pkg() == pt.pkg.Types && k.Value.Kind() == constant.Int {
+							if opc := namedConstOf(nt, k.Value); opc != nil {
+								tokOp[tv] = opc
+							}
+						}
+					}
+				}
+			}
+		}
 		// operator constant value -> String() result
 		for tok, opc := range tokOp {
 			n++
@@ -872,7 +898,31 @@ func (pt *prattTables) enumString(k *types.Const) (string, bool) {
 			}
 		}
 	}
+	// the compiled String method: `op == K` leading to the return of a string constant
+	if sel := pt.ssaProg.MethodSets.MethodSet(nt).Lookup(pt.pkg.Types, "String"); sel != nil {
+		for _, cse := range constCaseMap(pt.ssaProg.MethodValue(sel)) {
+			if !types.Identical(cse.Lit.Type(), nt) || cse.Lit.Value.ExactString() != k.Val().ExactString() {
+				continue
+			}
+			for _, rk := range cse.Sel {
+				if rk.Value.Kind() == constant.String {
+					return constant.StringVal(rk.Value), true
+				}
+			}
+		}
+	}
 	return "", false
+}
+
+// namedConstOf: the declared constant of type nt with the given value.
+func namedConstOf(nt *types.Named, v constant.Value) *types.Const {
+	sc := nt.Obj().Pkg().Scope()
+	for _, nm := range sc.Names() {
+		if cst, ok := sc.Lookup(nm).(*types.Const); ok && types.Identical(cst.Type(), nt) && constant.Compare(cst.Val(), token.EQL, v) {
+			return cst
+		}
+	}
+	return nil
 }
 
 // checkRegexFlag: a token consumption that is followed (on every path) by a return to the Pratt
